@@ -117,16 +117,20 @@ def run(ctx):
     g = prog.fn(SESSION + "::run")
     ctx.analysed(g.path)
     gflow = Flow(g.body)
+    gsl = Slicer(g.body)
+    now_name = g.body.names.get(3, "now")   # run(&mut self, fdt, now): third parameter
 
     def pace_gate(n):
         if n[0] != "e":
             return False
         for (a, tr) in gflow.edge_facts(n):
-            if a[0] == "variant" and any(c[0] == "call" and c[1].endswith("FileDesc::get_next_transfer_timestamp") for c in walk(a[1])):
+            if a[0] == "variant" and any(c[0] == "call" and c[1].endswith("FileDesc::get_next_transfer_timestamp") for c in walk(gsl.expand(a[1]))):
                 if (a[2] == "None" and tr) or (a[2] == "Some" and not tr):
                     return True
-            if a[0] == "le" and tr and show(a[1]) == "next_timestamp" and show(a[2]) == "now":
-                return True
+            if a[0] == "le" and tr and show(a[2]) == now_name:
+                ex = gsl.expand(a[1])
+                if any(c[0] == "call" and c[1].endswith("FileDesc::get_next_transfer_timestamp") for c in walk(ex)) and "@Some.0" in show(ex):
+                    return True
         return False
 
     reads = call_sites(g, lambda p, c: p.endswith("sender::blockencoder::BlockEncoder::read"))
@@ -184,10 +188,11 @@ def run(ctx):
                 r1d.violation(key, "first due time is %s, expected Some(now)" % show(a["value"], 60), loc(a["sp"]))
     tk = prog.fn(TI + "::tick")
     ctx.analysed(tk.path)
+    tks = Slicer(tk.body)
     adds = call_sites(tk, lambda p, c: re.search(r"SystemTime::(checked_add|add)$", p) is not None)
     for s in adds:
         key = "TransferInfo::tick step"
-        if show(s.expr[2][1]) == "tick":
+        if show(tks.expand(s.expr[2][1])) == "self.packet_transmission_tick@Some.0":
             r1d.ok(key, show(s.expr, 80), s.loc)
         else:
             r1d.violation(key, "tick() advances by %s" % show(s.expr[2][1], 60), s.loc)
